@@ -73,6 +73,7 @@ fn models(tier: Tier) -> Vec<(usize, Model)> {
     // reified and half-reified constraints with a free reification literal (scripted exploration;
     // the ordered enumerations of the same models follow in `run`)
     v.extend(crate::props::c09::reified_models(tier).into_iter().map(|m| (1, m)));
+    v.extend(crate::props::c09::self_referential_models().into_iter().map(|m| (1, m)));
     // cumulative: several profiles propagating on one task in a single invocation
     for ts in c08::profile_sets() {
         for o in CumOpts::all() {
@@ -572,7 +573,9 @@ impl Property for C17 {
         // last and in between (min and max values), every event checked
         let mut idx = ms.len() as u64;
         let default_cfg = Cfg::default_cfg();
-        for model in crate::props::c09::reified_models(tier) {
+        let mut reified = crate::props::c09::reified_models(tier);
+        reified.extend(crate::props::c09::self_referential_models());
+        for model in reified {
             let mut sols: Option<Vec<Vec<i32>>> = None;
             for (perm, valsel) in crate::props::c09::orders(model.vars.len()) {
                 let my = idx;
